@@ -56,7 +56,11 @@ def histogram_interval(dist, w, nb, weights=None):
 
 def reference(frames_pos, types, H, ppp, w, lengths):
     """frames_pos: list of (N,d) arrays. returns dict(columns -> (lo,hi)), r, compare_mask, relaxed_mask"""
-    types = np.asarray(types)
+    if isinstance(types, list):
+        types_f = [np.asarray(t) for t in types]
+    else:
+        types_f = [np.asarray(types)] * len(frames_pos)
+    types = types_f[0]
     N, d = frames_pos[0].shape
     nb = int(np.min(lengths) / 2.0 / w)
     V = abs(np.linalg.det(H))
@@ -76,9 +80,9 @@ def reference(frames_pos, types, H, ppp, w, lengths):
             cols[f"gr{a}{b}"] = [np.zeros(nb), np.zeros(nb)]
     relaxed = np.zeros(nb, dtype=bool)
     off = ~np.eye(N, dtype=bool)
-    ti = np.broadcast_to(types[:, None], (N, N))
-    tj = np.broadcast_to(types[None, :], (N, N))
-    for pos in frames_pos:
+    for pos, tf in zip(frames_pos, types_f):
+        ti = np.broadcast_to(tf[:, None], (N, N))
+        tj = np.broadcast_to(tf[None, :], (N, N))
         _vec, dist, _d2 = geom.pair_table(pos, H, ppp)
         lo, hi, rel = histogram_interval(dist[off], w, nb)
         cols["gr"][0] += lo
